@@ -495,6 +495,7 @@ type catGen struct {
 		Read([]byte) (int, error)
 	}
 	N, NT, h1, h2 *big.Int
+	ntFactor      *big.Int // a prime factor of NT (known to the verifier only; used for robustness inputs)
 	curve         string
 }
 
@@ -633,6 +634,34 @@ var w3Table = map[string]w3Fn{
 			pf.Verify(tss.S256(), &paillier.PublicKey{N: g.Int()}, g.Int(), g.Int(), g.Int(), g.Int())
 		}
 	},
+	// a prover that fixes z / u / w to a degenerate value before the challenge and answers honestly: the equations that
+	// do not involve the forced value hold, so the verifier gets as far as using it (inverse of a non-unit, exponent of 0)
+	"mta.RangeProofAlice.Verify/forced-first-move": func(r *core.Result, g *catGen) {
+		pk := &paillier.PublicKey{N: g.N}
+		m := big.NewInt(int64(1 + g.rg.Intn(1000)))
+		c, rr, err := pk.EncryptAndReturnRandomness(rand.Reader, m)
+		if err != nil {
+			return
+		}
+		q3 := new(big.Int).Exp(secQ, big.NewInt(3), nil)
+		alpha := new(big.Int).Rsh(q3, 1)
+		which := []string{"z", "u", "w"}[g.rg.Intn(3)]
+		mod := g.NT
+		if which == "u" {
+			mod = pk.NSquare()
+		}
+		vals := []*big.Int{big.NewInt(0), new(big.Int).Set(mod), new(big.Int).Lsh(mod, 1), big.NewInt(1), new(big.Int).Sub(mod, big1), new(big.Int).Set(g.N), new(big.Int).Neg(big1)}
+		if g.ntFactor != nil {
+			vals = append(vals, new(big.Int).Set(g.ntFactor), new(big.Int).Mul(g.ntFactor, big.NewInt(12345)))
+		}
+		v := vals[g.rg.Intn(len(vals))]
+		pf := aliceTranscriptForced(pk, c, g.NT, g.h1, g.h2, m, rr, alpha, map[string]*big.Int{which: v})
+		ok := pf.Verify(tss.S256(), pk, g.NT, g.h1, g.h2, c)
+		if ok {
+			r.Fail("W3:accepted:mta.RangeProofAlice.Verify:forced-"+which, "a range proof with %s forced to %s was accepted", which, v)
+		}
+		r.Count("forced_first_move_proofs", 1)
+	},
 	"mta.ProofBob.Verify+FromBytes": func(r *core.Result, g *catGen) {
 		n := []int{0, 9, 10, 11, 12, 13}[g.rg.Intn(6)]
 		if pf, err := mta.ProofBobFromBytes(g.List(n)); err == nil {
@@ -729,6 +758,7 @@ func c06Direct(r *core.Result, fn string, n int, env *core.Env) {
 		return
 	}
 	g := &catGen{rg: rng(env.Seed, "w3"+fn), N: pp[0].PaillierSK.N, NT: pp[1].NTildei, h1: pp[1].H1i, h2: pp[1].H2i, curve: "secp256k1"}
+	g.ntFactor = new(big.Int).Add(new(big.Int).Lsh(pp[1].P, 1), big1) // NTilde = (2p+1)(2q+1)
 	if strings.HasPrefix(fn, "paillier.Proof.Verify/") {
 		c06PaillierProof(r, g, strings.TrimPrefix(fn, "paillier.Proof.Verify/"))
 		return
